@@ -190,6 +190,13 @@ def execute(case):
             def fn():
                 peer_miu = eff(case, other(side), "miu")
                 tx = nfc.llcp.Socket(llc, nfc.llcp.LOGICAL_DATA_LINK)
+                # several small datagrams pending at once: with aggregation
+                # they travel in one AGF PDU that must respect the peer's MIU
+                for n in burst_sizes(case, side, peer_miu):
+                    try:
+                        tx.sendto(bytes(n), RX_SAP, nfc.llcp.MSG_DONTWAIT)
+                    except nfc.llcp.Error as e:
+                        o["notes"].append("burst-error:%s" % e.errno)
                 for who, base, delta in case["ui"]:
                     if who != side:
                         continue
@@ -297,6 +304,15 @@ def flag(ctx, cls, v):
 
 def rwt_of(wt):
     return 4096 / 13.56E6 * 2 ** min(wt, 14)
+
+
+def burst_sizes(case, side, peer_miu):
+    """2..7 datagrams of 1/5 .. 1/2 of the peer's MIU, a function of the case
+    seed (so every leg, also the grid, has them)"""
+    x = (case.get("seed", 0) * 2654435761 + (side == "t") * 40503) & 0xFFFFFFFF
+    k = 2 + x % 6
+    return [max(1, peer_miu // (2 + (x >> (4 + 3 * j)) % 4) - (x >> j) % 3)
+            for j in range(k)]
 
 
 def pdu_infos(raw):
